@@ -44,6 +44,7 @@ type Config struct {
 	Timed             bool // virtual clock: tick events, timers fire only when due
 	AppResetFlag      bool // the application's ToAdmin callback sets ResetSeqNumFlag=Y on every outgoing Logon
 	Flip              bool // this side is TW talking to ISLD (the mirror identity, for two-engine worlds)
+	ResetSeqTime      bool // ResetSeqTime=12:00:00 (UTC) is configured (event "reset-time": the one-second ticker crosses it)
 	SessionWindow     bool // a daily session window of +-6 h around the current time is configured (event "window-closes")
 	SenderSub         string
 	TargetSub         string
@@ -62,7 +63,7 @@ func (c Config) String() string {
 		b bool
 		n string
 	}{{c.ResetOnLogon, "RLogon"}, {c.ResetOnLogout, "RLogout"}, {c.ResetOnDisconnect, "RDisc"}, {c.RefreshOnLogon, "Refresh"},
-		{c.HBOverride, "HBOverride"}, {c.NoPersist, "nopersist"}, {c.NoCheckLatency, "nolatency"}, {c.FileDir != "", "file"}} {
+		{c.ResetSeqTime, "ResetSeqTime"}, {c.HBOverride, "HBOverride"}, {c.NoPersist, "nopersist"}, {c.NoCheckLatency, "nolatency"}, {c.FileDir != "", "file"}} {
 		if f.b {
 			s += "/" + f.n
 		}
@@ -288,6 +289,7 @@ type World struct {
 	Loop        *LoopCtl // non-nil: run-loop mode
 	Hung        bool     // a handler did not return (the world is abandoned)
 	applyStart  int
+	ResetDay    int // occurrences of the reset-time event so far
 	applyName   string
 }
 
@@ -385,6 +387,9 @@ func (w *World) boot(first bool) error {
 		}
 	} else if cfg.DataDictionary != "" {
 		ss.Set(config.DataDictionary, cfg.DataDictionary)
+	}
+	if cfg.ResetSeqTime {
+		ss.Set(config.ResetSeqTime, "12:00:00")
 	}
 	if cfg.SessionWindow {
 		now := time.Now().UTC()
@@ -692,6 +697,8 @@ func (w *World) Enabled(e *Event) bool {
 		return !sn.Connected && w.dir != ""
 	case "window-closes":
 		return w.Cfg.SessionWindow && sn.SessionTime
+	case "reset-time":
+		return w.Cfg.ResetSeqTime
 	case "tick":
 		// time cannot pass a due timer
 		return w.Cfg.Timed && !(w.ArmS && w.DeadS <= w.VNow) && !(w.ArmP && w.DeadP <= w.VNow)
@@ -823,6 +830,13 @@ func (w *World) applySync(e *Event) {
 	case "window-closes":
 		// the one-second ticker of run() notices that the session window has ended
 		w.VS.CheckSessionTime(time.Now().Add(12 * time.Hour))
+	case "reset-time":
+		// two consecutive ticks of run()'s one-second ticker, one before and one after the daily reset time
+		// (each occurrence of the event is the next day's crossing)
+		at := time.Date(2030, 1, 1+w.ResetDay, 12, 0, 0, 0, time.UTC)
+		w.ResetDay++
+		w.VS.CheckResetTime(at.Add(-time.Second))
+		w.VS.CheckResetTime(at.Add(time.Second))
 	case "restart":
 		w.Restarts++
 		if err := w.Restart(); err != nil {
